@@ -56,6 +56,15 @@ LEAVES = [
      [], "bool", {}),
     ("Register", "sync_close_goodbyes_before_done", "_core.py", "Zeroconf.close", ("call_before", "self.unregister_all_services", "self._close"),
      [], "bool", {}),
+    # since D27 the goodbyes of async_unregister_service leave through _async_send_repeatedly, those of a close / unregister-all through the
+    # loop of async_unregister_all_services: the ranges and intervals of THOSE loops (the model's goodbye task and close sequence are written
+    # with broadcast_count / unregisterTime; GenFacts.Goodbye.goodbye_loops proves the two goodbye loops have the same range and interval)
+    ("Register", "goodbye_count", "_core.py", "Zeroconf._async_send_repeatedly", ("range_arg", 0), [], "num", {"nat": True}),
+    ("Register", "goodbye_sleeps", "_core.py", "Zeroconf._async_send_repeatedly", ("if", "i != 0", 0), [P("i", "i")], "bool", {"nat": True}),
+    ("Register", "goodbye_interval", "_core.py", "Zeroconf.async_unregister_service", ("arg", "_async_send_repeatedly", 1, 0), [], "num", {"nat": True}),
+    ("Register", "goodbye_all_count", "_core.py", "Zeroconf.async_unregister_all_services", ("range_arg", 0), [], "num", {"nat": True}),
+    ("Register", "goodbye_all_sleeps", "_core.py", "Zeroconf.async_unregister_all_services", ("if", "i != 0", 0), [P("i", "i")], "bool", {"nat": True}),
+    ("Register", "goodbye_all_interval", "_core.py", "Zeroconf.async_unregister_all_services", ("arg", "millis_to_seconds", 0, 0), [], "num", {"nat": True}),
     # D27 repair: async_unregister_service builds the goodbye packet itself, at call time (the task re-sends it), instead of letting
     # the task read the ServiceInfo object again at each step (false on a tree without the repair)
     ("Register", "unregister_builds_goodbye_at_call", "_core.py", "Zeroconf.async_unregister_service", ("has_call", "self.generate_service_broadcast"),
@@ -70,6 +79,17 @@ LEAVES = [
      [], "bool", {}),
     ("Register", "register_encodes_before_registry", "_core.py", "Zeroconf.async_register_service", ("call_before", "generate_service_broadcast", "self.registry.async_add"),
      [], "bool", {}),
+    # ---- the public wrappers pass their arguments on in order (shape pins on the positional arguments 2..4 of the inner call) and the
+    # context managers close through the public close calls; async_unregister_service defaults a missing `server` like register / update
+    ("Register", "src_sync_register_arg2", "_core.py", "Zeroconf.register_service", ("arg", "self.async_register_service", 2, 0), [], "src", {}),
+    ("Register", "src_sync_register_arg3", "_core.py", "Zeroconf.register_service", ("arg", "self.async_register_service", 3, 0), [], "src", {}),
+    ("Register", "src_sync_register_arg4", "_core.py", "Zeroconf.register_service", ("arg", "self.async_register_service", 4, 0), [], "src", {}),
+    ("Register", "src_aio_register_arg2", "asyncio.py", "AsyncZeroconf.async_register_service", ("arg", "self.zeroconf.async_register_service", 2, 0), [], "src", {}),
+    ("Register", "src_aio_register_arg3", "asyncio.py", "AsyncZeroconf.async_register_service", ("arg", "self.zeroconf.async_register_service", 3, 0), [], "src", {}),
+    ("Register", "src_aio_register_arg4", "asyncio.py", "AsyncZeroconf.async_register_service", ("arg", "self.zeroconf.async_register_service", 4, 0), [], "src", {}),
+    ("Register", "aexit_calls_async_close", "asyncio.py", "AsyncZeroconf.__aexit__", ("has_call", "self.async_close"), [], "bool", {}),
+    ("Register", "exit_calls_close", "_core.py", "Zeroconf.__exit__", ("has_call", "self.close"), [], "bool", {}),
+    ("Register", "unregister_sets_server", "_core.py", "Zeroconf.async_unregister_service", ("has_call", "info.set_server_if_missing"), [], "bool", {}),
     # the registry is keyed by name: removal is by key, never by object identity (an equal-but-distinct ServiceInfo, or the
     # handle from before update_service, withdraws the service)
     ("Register", "registry_remove_by_identity", "_services/registry.py", "ServiceRegistry.async_remove", ("has_identity_test",),
